@@ -144,6 +144,7 @@ type streamObs struct {
 	batches int
 	kvs     int
 	maxb    int
+	runaway bool
 }
 
 func streamCoq(n *lib.RSNode, start, end []byte, rev uint64) (streamObs, error) {
@@ -165,6 +166,15 @@ func streamCoq(n *lib.RSNode, start, end []byte, rev uint64) (streamObs, error) 
 				return o, fmt.Errorf("stream message without range response / header")
 			}
 			rr := m.RangeResponse
+			if len(xs) > 40 || o.kvs > 4000 {
+				// runaway stream (more than any store of this driver can yield): keep draining, record a
+				// malformed sentinel once so that the oracle rejects the stream without a giant case
+				if !o.runaway {
+					o.runaway = true
+					xs = append(xs, "(mk_smsg 0 [] true true)")
+				}
+				continue
+			}
 			xs = append(xs, lib.App("mk_smsg", lib.N(rr.Header.Revision), coqKvs(rr.Kvs), lib.Bool(rr.More), lib.Bool(m.Err != "")))
 			if rr.More {
 				o.batches++
@@ -527,7 +537,9 @@ func main() {
 	d := func(k string, prev uint64) lib.RSOp { return lib.RSOp{Kind: "delete", Key: []byte(k), Prev: prev} }
 	// corpus 1: three versions of /r/a; borders between two versions (fix 51e6ded), on the index record, between keys
 	// extra ranges start exactly at the key whose versions are split (the adjusted border = start of the interval)
-	x1 := []rng{{[]byte("/r/a"), []byte("/r0"), 0}, {[]byte("/r/a"), []byte("/r/a/"), 104}, {[]byte("/r/a"), []byte("/r/b"), 103}}
+	x1 := []rng{{[]byte("/r/a"), []byte("/r0"), 0}, {[]byte("/r/a"), []byte("/r/a/"), 104}, {[]byte("/r/a"), []byte("/r/b"), 103},
+		// revisions at which only the versions *before* a mid-version border qualify
+		{[]byte("/r/"), []byte("/r0"), 101}, {[]byte("/r/"), []byte("/r0"), 102}, {[]byte("/r/"), []byte("/r0"), 103}, {[]byte("/r/"), []byte("/r0"), 104}}
 	s1 := store{keys: []string{"/r/a", "/r/a/b", "/r/b"}, extra: x1, ops: []lib.RSOp{c("/r/a", "1"), c("/r/a/b", "x"), u("/r/a", "2", 101), c("/r/b", "y"), u("/r/a", "3", 103), d("/r/a/b", 0), c("/r/ab", "z")}}
 	runStore(w, args, s1, rnd.Fork(), "corpus/memkv-wrap", 5, []tilingSpec{
 		{borders: [][]byte{enc("/r/a", 103)}},                                             // on a version record of /r/a
